@@ -8,7 +8,8 @@
    quoting form of every argument are chosen by the picks P (boundary number ->
    menu index) and Q (argument number -> form), and the rendering returns the text
    together with the tree annotated with what a reader must find: decoded argument,
-   line (from 1) and byte column (from 0) of each keyword.
+   line (from 1) and byte column (from 0) of each keyword - in the text as a whole,
+   whatever it starts with (LayoutFrom: a byte order mark).
 
    ParseText reads a text with the intended lexer (YangLexer!LexAll) and the
    statement grammar of RFC 6020 section 6.3:
@@ -53,7 +54,11 @@ RECURSIVE ParseStmt(_, _, _), ParseStmts(_, _, _, _)
 ParseStmt(its, t, i0) ==
   LET i == SkipSep(its, i0) IN
   IF Typ(its, i) # "String" THEN SFail
-  ELSE LET kwi == its[i].pos + 1
+  ELSE LET kw0 == Txt(t, its[i])
+           \* a byte order mark at the very start of the text: RFC 6020 does not say whether it belongs to the first word;
+           \* the keyword is read without it, kwAlt is the other acceptable reading (everywhere else kwAlt = kw)
+           bomKw == its[i].pos = 0 /\ Len(kw0) > 1 /\ kw0[1] = BOM
+           kwi == its[i].pos + 1 + (IF bomKw THEN 1 ELSE 0)
            j == SkipSep(its, i + 1)
            a == IF Typ(its, j) = "String" THEN [ok |-> TRUE, val |-> Txt(t, its[j]), judged |-> TRUE, next |-> j + 1, has |-> TRUE]
                 ELSE IF Typ(its, j) = "Quote"
@@ -62,7 +67,7 @@ ParseStmt(its, t, i0) ==
                 ELSE [ok |-> TRUE, val |-> << >>, judged |-> TRUE, next |-> i + 1, has |-> FALSE]
        IN IF ~a.ok THEN SFail
           ELSE LET k == SkipSep(its, a.next)
-                   mk(subs) == [kw |-> Txt(t, its[i]), hasArg |-> a.has, arg |-> a.val, argJ |-> a.judged,
+                   mk(subs) == [kw |-> IF bomKw THEN Tail(kw0) ELSE kw0, kwAlt |-> kw0, hasArg |-> a.has, arg |-> a.val, argJ |-> a.judged,
                                 line |-> LineOf(t, kwi), col |-> ColOf(t, kwi), colJ |-> AsciiBack(t, kwi - 1), subs |-> subs]
                IN IF Typ(its, k) = "SemiColon" THEN [ok |-> TRUE, tree |-> mk(<< >>), next |-> k + 1]
                   ELSE IF Typ(its, k) = "LBrace"
@@ -135,7 +140,7 @@ LayStmt(P, Q, tx, b, n) ==
                           [k \in 1..(Len(ps) - 1) |-> Pick(TrivOpt, P, b + 2 * k) \o <<PLUS>> \o Pick(TrivOpt, P, b + 2 * k + 1)])
            ELSE [text |-> t2, value |-> << >>, judged |-> TRUE]
       t3 == r.text \o Pick(TrivOpt, P, b + 6)
-      ann(subs) == [kw |-> n.kw, hasArg |-> n.hasArg, arg |-> r.value, argJ |-> r.judged,
+      ann(subs) == [kw |-> n.kw, kwAlt |-> IF t1 = <<BOM>> THEN <<BOM>> \o n.kw ELSE n.kw, hasArg |-> n.hasArg, arg |-> r.value, argJ |-> r.judged,
                     line |-> LineOf(t1, kwi), col |-> ColOf(t1, kwi), colJ |-> AsciiBack(t1, kwi - 1), subs |-> subs]
       u1 == <<<<b, "o">>>> \o (IF n.hasArg THEN <<<<b + 1, "s">>>> \o [k \in 1..(2 * (Len(ps) - 1)) |-> <<b + 1 + k, "o">>] ELSE << >>) \o <<<<b + 6, "o">>>>
       block == P[1 + ((b + 6) % Len(P))] % 5 = 4
@@ -149,8 +154,10 @@ LaySubs(P, Q, tx, b, subs, acc, used) ==
   IF subs = << >> THEN [text |-> tx, tree |-> acc, b |-> b, used |-> used]
   ELSE LET s == LayStmt(P, Q, tx, b, subs[1]) IN LaySubs(P, Q, s.text, s.b, Tail(subs), Append(acc, s.tree), used \o s.used)
 \* the whole text: the statement, then trailing trivia chosen by `last`
-Layout(P, Q, n, last) == LET s == LayStmt(P, Q, << >>, 1, n) IN
+\* (pre: what the text starts with - nothing, or a byte order mark; every position refers to the whole text, pre included)
+LayoutFrom(pre, P, Q, n, last) == LET s == LayStmt(P, Q, pre, 1, n) IN
   [text |-> s.text \o TrivEnd[1 + (last % Len(TrivEnd))], tree |-> s.tree, nb |-> s.b - 1, used |-> s.used]
+Layout(P, Q, n, last) == LayoutFrom(<< >>, P, Q, n, last)
 
 \* a value the renderings stand for: every judged argument decodes to the source argument
 RECURSIVE ArgsKept(_, _)
